@@ -152,6 +152,12 @@ impl Monitors {
             self.own_ids.insert(*id);
         }
         self.own_ids.insert(post.id);
+        // identities the instance went through inside this call (several renewals in one call)
+        for n in rec.notes() {
+            if let OwnedNotification::Rejoin(id) = n {
+                self.own_ids.insert(*id);
+            }
+        }
 
         // stale genuine timer?  (decided before the ledger is updated)
         let mut delivered_stale = false;
